@@ -189,10 +189,10 @@ func checkGraphCaches(w *World, r *Report, ruleDirty, ruleDegrees, ruleCacheWrit
 					}
 					val := exprStr(as.Rhs[i])
 					if val == "true" {
-						out = append(out, "dirty:"+fv.Name())
+						out = append(out, "dirty:"+w.canonName(fv))
 					} else {
-						kill = append(kill, "dirty:"+fv.Name())
-						out = append(out, "clean:"+fv.Name())
+						kill = append(kill, "dirty:"+w.canonName(fv))
+						out = append(out, "clean:"+w.canonName(fv))
 					}
 				}
 				for i, l := range as.Lhs {
